@@ -1,9 +1,52 @@
 //! Native confirmation of UNSATISFIABLE "this outcome can occur" covers: a grid of scripted random
 //! streams is run against the real code; the test fails if an outcome the property requires never
 //! occurs.  (The verdict is the solver's; this is the replay that shows it on the real build.)
-#![cfg(feature = "c10")]
-use uec_verif::c10_xo::*;
 use uec_verif::symrng::SymRng;
+
+#[cfg(feature = "c07")]
+mod c07 {
+    use super::*;
+    use uec_verif::c07_pressure::*;
+
+    fn masks<const N: usize, const K: usize>() -> Vec<u32> {
+        let g: Vec<u64> = (0..16u64).map(|k| (k << 28) | (k << 60)).chain([0xFFFF_FFFF_FFFF_FFFF]).collect();
+        let mut seen = Vec::new();
+        for &a in &g {
+            for &b in &g {
+                for &c in &g {
+                    let mut rng = SymRng::scripted(&[a, b, c, a ^ b, b ^ c, c]);
+                    let vals = [0u8; N];
+                    let (_, m) = run_tournament::<N, K, _>(vals, &mut rng);
+                    if !seen.contains(&m) {
+                        seen.push(m);
+                    }
+                }
+            }
+        }
+        seen
+    }
+    fn all_subsets<const N: usize, const K: usize>() {
+        let seen = masks::<N, K>();
+        for m in 0u32..(1 << N) {
+            if m.count_ones() as usize == K {
+                assert!(seen.contains(&m), "tournament k={K} over n={N} never samples subset {m:#b}; seen {seen:?}");
+            }
+        }
+    }
+    #[test]
+    fn tournament_subsets_reachable() {
+        all_subsets::<2, 1>();
+        all_subsets::<3, 1>();
+        all_subsets::<3, 2>();
+        all_subsets::<4, 2>();
+        all_subsets::<4, 3>();
+    }
+}
+
+#[cfg(feature = "c10")]
+mod c10 {
+use super::*;
+use uec_verif::c10_xo::*;
 
 fn grid() -> Vec<u64> {
     let mut g: Vec<u64> = (0..64u64).map(|k| k << 26).collect();
@@ -49,4 +92,5 @@ fn two_point_segments_reachable() {
     all_segments_seen::<4>(&segments::<4>(two_point_bits_arr::<4>));
     all_segments_seen::<3>(&segments::<3>(two_point_vec_tuple::<3>));
     all_segments_seen::<2>(&segments::<2>(two_point_bits_tuple::<2>));
+}
 }
